@@ -134,8 +134,9 @@ var properties = map[string]Prop{
 		Assumptions: append([]string{"the network is the in-memory vnet shim (net.Dial / ListenTCP / Conn with virtual deadlines); TLS listeners are not modelled", coarseAssumption}, schedAssumptions...),
 	},
 	"C14": {
-		// the empty fault pattern with two peers: one sender streams to B, another to a third system (from the healthy-link harness)
-		Parts:       []Part{{Harness: "c14"}, {Harness: "c11", Args: []string{"-only", "two-peers"}}},
+		// the empty fault pattern (from the healthy-link harness): two senders streaming to two peers, and a message rejected by the
+		// sender's own encoder while earlier frames are still in flight
+		Parts:       []Part{{Harness: "c14"}, {Harness: "c11", Args: []string{"-only", "two-peers,rejected-in-flight"}}},
 		Level:       "fault_enumeration",
 		QuickBudget: 250, ThoroughBudget: 2400,
 		Rule:        "two real Systems on the in-memory network, sender A -> receiver B, retry limit in {0,1,3}: the first connection is cut after byte j of its client->server stream for every j in 0..280 (handshake + three frames; quick: every j for limit 1, every third j otherwise), two-fault runs cutting the first and the second connection on a grid of offsets, the first k in 1..5 dials refused (exact retry budget per message), two senders contacting the peer for the first time at once with 0/1 refused dials and fine granularity inside package remoting, the peer stopped and restarted (with and without a send while it is down), and a raw client injecting between two valid frames an undecodable body / an over-limit length followed by a forged frame / an unknown message name / a corrupted envelope; each scenario explored over schedules up to the deviation bound; a case is one (fault, position, retry limit) scenario, non-trivial when a fault actually fired",
